@@ -119,6 +119,8 @@ def perturb_params(params, fold=1, lower_bound=None, upper_bound=None):
     """
     pnew = params * 2**(fold * (2*numpy.random.uniform(size=len(params))-1))
     if lower_bound is not None:
+        # Work on a copy, so that None entries of the caller's list are left alone.
+        lower_bound = list(lower_bound)
         for ii,bound in enumerate(lower_bound):
             if bound is None:
                 lower_bound[ii] = -numpy.inf
@@ -126,6 +128,7 @@ def perturb_params(params, fold=1, lower_bound=None, upper_bound=None):
         lower = numpy.asarray(lower_bound, dtype=float)
         pnew = numpy.maximum(pnew, numpy.where(lower < 0, 0.99*lower, 1.01*lower))
     if upper_bound is not None:
+        upper_bound = list(upper_bound)
         for ii,bound in enumerate(upper_bound):
             if bound is None:
                 upper_bound[ii] = numpy.inf
